@@ -6,8 +6,13 @@ package rpc
 //@ spec
 //@ func atOldU32(f func() uint32) uint32 { panic("spec") }
 //@ func atOldEnt(f func() *expent) *expent { panic("spec") }
-//@ // export table invariant used here: every table index is an issued export id
-//@ func exportsOK(c *Conn) bool { return c != nil && genOK(&c.exportID) && M(len(c.exports)) <= M(c.exportID.i) }
+//@ // export table invariant: the table and the id generator grow in step (every table index is an
+//@ // issued export id and every issued id has a table slot), and the slot of a free id is empty
+//@ func exportsOK(c *Conn) bool { return c != nil && genOK(&c.exportID) && M(len(c.exports)) == M(c.exportID.i) }
+//@ // the slot of a free id is empty
+//@ func slotsEmpty(c *Conn) bool {
+//@ 	return forall(0, len(c.exports), func(k int) bool { return implies(inSet(c.exportID.free, uint(k)), c.exports[k] == nil) })
+//@ }
 //@ end
 
 //@ func Conn.findExport -> ent
@@ -22,10 +27,11 @@ package rpc
 // than are held, or an unknown id, is an error and changes nothing.
 //@ func Conn.releaseExport -> client, err
 //@   props C07
-//@   requires exportsOK(c)
+//@   requires exportsOK(c) && slotsEmpty(c)
 //@   old ent0 *expent = c.findExport(id)
 //@   old refs0 uint32 = wireRefsOf(c.findExport(id))
 //@   ensures exportsOK(c)
+//@   ensures stillempty: slotsEmpty(c)
 //@   ensures unknown: implies(ent0 == nil, err != nil && client == nil)
 //@   ensures toomany: implies(ent0 != nil && count > refs0, err != nil && client == nil && ent0.wireRefs == refs0 && c.exports[int(id)] == ent0)
 //@   ensures partial: implies(ent0 != nil && count < refs0, err == nil && client == nil && ent0.wireRefs == refs0-count && c.exports[int(id)] == ent0)
@@ -37,5 +43,40 @@ package rpc
 //@ 		return 0
 //@ 	}
 //@ 	return e.wireRefs
+//@ }
+//@ end
+
+// sendCap (PARTIAL: index safety, nil-map writes and the postconditions below).  A descriptor that
+// names a local capability records exactly one more wire reference under the id it carries: the
+// id has a table slot, the slot holds an entry, and that entry's count is one more than the count
+// the slot had before (zero for a slot that was empty or new).  The table and the id generator
+// stay in step.  c.mu is held by the caller; code outside the package (Client.IsSame, the message
+// setters) cannot reach the export table.
+//@ option callbackframe:Conn.exports callbackframe:Conn.exportID callbackframe:expent callbackframe:idgen
+//@ func Conn.sendCap -> id, isExport
+//@   props C07
+//@   partial bounds nilmap post
+//@   requires exportsOK(c) && c.exportID.i < 1<<32-1
+//@   -- ASSUMED on entry, and its preservation by sendCap is NOT decided (the solvers do not carry the
+//@   -- bit-level argument through the address-indexed quantifier); releaseExport preserves it
+//@   requires slotsEmpty(c)
+//@   requires full: forall(0, len(c.exports), func(k int) bool { return implies(c.exports[k] != nil, c.exports[k].wireRefs < 1<<32-1) })
+//@   old n0 int = len(c.exports)
+//@   ensures gen: genOK(&c.exportID)
+//@   ensures instep: M(len(c.exports)) == M(c.exportID.i)
+//@   ensures slot: implies(isExport, M(id) < M(len(c.exports)) && c.exports[int(id)] != nil)
+//@   ensures onemore: implies(isExport, M(c.exports[int(id)].wireRefs) == M(atOldU32(func() uint32 { return wireRefsAt(c, id) }))+1)
+//@   ensures notexport: implies(!isExport, id == 0 && len(c.exports) == n0)
+//@   assert before "if int64(id) == int64(len(c.exports))" taken: !inSet(c.exportID.free, uint(id)) && M(id) <= M(len(c.exports))
+//@   loop 0 "range c.exports"
+//@     invariant exportsOK(c) && slotsEmpty(c) && len(c.exports) == n0 && c.exportID.i < 1<<32-1
+//@     invariant forall(0, len(c.exports), func(k int) bool { return implies(c.exports[k] != nil, c.exports[k].wireRefs < 1<<32-1 && c.exports[k].wireRefs == atOldU32(func() uint32 { return wireRefsAt(c, exportID(k)) })) })
+
+//@ spec
+//@ func wireRefsAt(c *Conn, id exportID) uint32 {
+//@ 	if M(id) >= M(len(c.exports)) {
+//@ 		return 0
+//@ 	}
+//@ 	return wireRefsOf(c.exports[int(id)])
 //@ }
 //@ end
